@@ -272,6 +272,12 @@ def run_shard(item):
             rec.case(True, ops=U.OPS_PER_CASE)
             U.judge(rec, PROPERTY, None, U.UNITS[kind], {"cfg": cfg, "params": p}, "class")
             rec.count("big_directive_cases")
+        # one segment request more than the 16-bit data-field length can announce: building / packing must fail, octets with a
+        # length field that wrapped are the violation
+        w = 16 if cfg["large"] else 8
+        room = 65535 - (17 if cfg["large"] else 9) - (2 if cfg["crc"] else 0)
+        for extra in (1, 2, 40):
+            check_fit(rec, "NakPdu", "data-field-length", {"cfg": cfg, "params": {"start": 1, "end": 2, "segs": [[i, i + 1] for i in range(room // w + extra)]}})
     elif item["job"] == "ack-refusal":
         # the property speaks of valid parameter sets only: what the constructor does with another acked directive
         # is recorded as an outcome, not judged
